@@ -447,3 +447,13 @@ Proof.
   intros Hy Hx Hi Hj. rewrite circular_is_spec, mask_of_get by assumption. rewrite negb_false_iff. unfold circ_inside.
   apply sqrt_le_iff. unfold dist2. rsimp. nra.
 Qed.
+Lemma circular_element_explicit H W sy sx r cy cx i j : sy <> 0 -> sx <> 0 -> (0 <= i < H)%Z -> (0 <= j < W)%Z ->
+  getm (@mask_2d_circular_from ROps (H, W) (sy, sx) r (cy, cx)) (i, j) = false <->
+  sqrt (((IZR (H - 1) / 2 - IZR i) * sy - cy) ^ 2 + ((IZR j - IZR (W - 1) / 2) * sx - cx) ^ 2) <= r.
+Proof.
+  intros Hy Hx Hi Hj. rewrite (circular_element H W sy sx r cy cx i j Hy Hx Hi Hj).
+  unfold dist2, offset, centre_spec, cy_spec, cx_spec, sq, two, zero. cbn [T add sub mul div ofZ ROps fst snd].
+  replace (0 + (IZR (H - 1) / 2 - IZR i) * sy - cy) with ((IZR (H - 1) / 2 - IZR i) * sy - cy) by lra.
+  replace (0 + (IZR j - IZR (W - 1) / 2) * sx - cx) with ((IZR j - IZR (W - 1) / 2) * sx - cx) by lra.
+  cbn [pow]. rewrite !Rmult_1_r. reflexivity.
+Qed.
